@@ -128,4 +128,12 @@ def HeadNonNum (ts : List Tok) : Prop := ∀ t, ts.head? = some t → t.isNumeri
 def decodeText (s : String) : Option Val :=
   (lexAll s.toList.length (s.toList.length + 1) s.toList).bind decodeToks
 
+/-- lex as many tokens as possible off the front of a text -/
+def lexMax : Nat → Nat → List Char → List Tok × List Char
+  | 0, _, l => ([], l)
+  | n + 1, f, l =>
+    match lexOne f l with
+    | some (t, r) => ((lexMax n f r).1.cons t, (lexMax n f r).2)
+    | none => ([], l)
+
 end PlaybackModel.Codec
